@@ -1,3 +1,14 @@
+/-
+AES (Spec/Aes.lean, FIPS 197): InvCipher inverts Cipher for every key of 16 / 24 / 32 bytes.
+
+* the S-box tables are *computed* in the spec (`ginv` by search); they are identified with the literal
+  tables through the field structure (`gmul a ·` is additive, an additive map is determined by its
+  values on the 8 basis bytes), not by brute-force evaluation of the search
+* InvMixColumns ∘ MixColumns = id by additivity of `gmul c ·` and 8 basis values per matrix entry
+* the round structure is handled for an arbitrary list of 16-byte round keys
+* KeyExpansion yields Nr + 1 round keys of 16 bytes (for every key of at least 4 bytes)
+No Mathlib.
+-/
 import RelicVerif.Spec.Aes
 namespace Relic.Lemmas.Aes
 open Relic.Spec.Aes
@@ -151,7 +162,6 @@ theorem additive_ext (f g : UInt8 → UInt8)
   have hz := dec z.toNat z.toNat_lt
   have hc := cases z.toNat z.toNat_lt
   rw [UInt8.ofNat_toNat] at hz hc
-  have e : ∀ k, f k = g k → f (z &&& k) = g (z &&& k) → True := fun _ _ _ => trivial
   have hk : ∀ k ∈ [(1 : UInt8), 2, 4, 8, 16, 32, 64, 128], f k = g k → f (z &&& k) = g (z &&& k) := by
     intro k hk hfg
     rcases hc k hk with h | h <;> rw [h]
@@ -248,7 +258,7 @@ theorem ginv_eq (a : UInt8) : ginv a = ginvL.getD a.toNat 0 := by
 
 theorem getD_map_range (f : Nat → UInt8) (n i : Nat) (h : i < n) :
     ((Array.range n).map f).getD i 0 = f i := by
-  simp [Array.getElem?_range, h]
+  simp [h]
 
 theorem sbox_eq (a : UInt8) : sbox a = sboxL.getD a.toNat 0 := by
   unfold sbox sboxTable
@@ -290,11 +300,16 @@ theorem sbox_invSbox (y : UInt8) : sbox (invSbox y) = y := by
   | none =>
     exfalso
     rw [List.find?_range_eq_none] at hfind
-    have := hfind (invSboxL.getD y.toNat 0).toNat (UInt8.toNat_lt _)
-    simp [sbox_invSboxL] at this
+    have h1 := hfind (invSboxL.getD y.toNat 0).toNat (UInt8.toNat_lt _)
+    rw [UInt8.ofNat_toNat, sbox_invSboxL] at h1
+    simp at h1
   | some j =>
     have := List.find?_some hfind
     simpa using this
+
+/-- the computed tables are the literal FIPS 197 tables (Figure 7 / Figure 14) -/
+theorem invSbox_eq (y : UInt8) : invSbox y = invSboxL.getD y.toNat 0 :=
+  sbox_injective _ _ (by rw [sbox_invSbox, sbox_invSboxL])
 
 theorem invSubBytes_subBytes (s : Bytes) : invSubBytes (subBytes s) = s := by
   unfold invSubBytes subBytes
@@ -308,4 +323,288 @@ theorem subBytes_invSubBytes (s : Bytes) : subBytes (invSubBytes s) = s := by
   | nil => rfl
   | cons x t ih => simp only [List.map_cons, sbox_invSbox, ih]
 
+
+/-! ## MixColumns -/
+
+/-- one row of the circulant matrix product -/
+def row (m0 m1 m2 m3 a b c d : UInt8) : UInt8 :=
+  gmul m0 a ^^^ gmul m1 b ^^^ gmul m2 c ^^^ gmul m3 d
+
+theorem mixColumn_four (m0 m1 m2 m3 a b c d : UInt8) :
+    mixColumn [m0, m1, m2, m3] [a, b, c, d] =
+      [row m0 m1 m2 m3 a b c d, row m3 m0 m1 m2 a b c d,
+       row m2 m3 m0 m1 a b c d, row m1 m2 m3 m0 a b c d] := by
+  simp [mixColumn, range4, row]
+
+/-- row `e` of InvMixColumns applied to the MixColumns image of the column `(a, b, c, d)` -/
+def mixF (e0 e1 e2 e3 a b c d : UInt8) : UInt8 :=
+  row e0 e1 e2 e3 (row 2 3 1 1 a b c d) (row 1 2 3 1 a b c d) (row 1 1 2 3 a b c d) (row 3 1 1 2 a b c d)
+
+theorem mixF_add (e0 e1 e2 e3 a b c d a' b' c' d' : UInt8) :
+    mixF e0 e1 e2 e3 (a ^^^ a') (b ^^^ b') (c ^^^ c') (d ^^^ d') =
+      mixF e0 e1 e2 e3 a b c d ^^^ mixF e0 e1 e2 e3 a' b' c' d' := by
+  simp only [mixF, row, gmul_xor]
+  ac_rfl
+
+theorem mixF_split (e0 e1 e2 e3 a b c d : UInt8) :
+    mixF e0 e1 e2 e3 a b c d =
+      mixF e0 e1 e2 e3 a 0 0 0 ^^^ mixF e0 e1 e2 e3 0 b 0 0 ^^^
+      mixF e0 e1 e2 e3 0 0 c 0 ^^^ mixF e0 e1 e2 e3 0 0 0 d := by
+  have h1 := mixF_add e0 e1 e2 e3 a 0 0 0 0 b 0 0
+  have h2 := mixF_add e0 e1 e2 e3 a b 0 0 0 0 c 0
+  have h3 := mixF_add e0 e1 e2 e3 a b c 0 0 0 0 d
+  simp only [UInt8.xor_zero, UInt8.zero_xor] at h1 h2 h3
+  rw [h3, h2, h1]
+
+theorem mixF_basis : ∀ k ∈ [(1 : UInt8), 2, 4, 8, 16, 32, 64, 128],
+    (mixF 0x0e 0x0b 0x0d 0x09 k 0 0 0 = k ∧ mixF 0x0e 0x0b 0x0d 0x09 0 k 0 0 = 0 ∧
+     mixF 0x0e 0x0b 0x0d 0x09 0 0 k 0 = 0 ∧ mixF 0x0e 0x0b 0x0d 0x09 0 0 0 k = 0) ∧
+    (mixF 0x09 0x0e 0x0b 0x0d k 0 0 0 = 0 ∧ mixF 0x09 0x0e 0x0b 0x0d 0 k 0 0 = k ∧
+     mixF 0x09 0x0e 0x0b 0x0d 0 0 k 0 = 0 ∧ mixF 0x09 0x0e 0x0b 0x0d 0 0 0 k = 0) ∧
+    (mixF 0x0d 0x09 0x0e 0x0b k 0 0 0 = 0 ∧ mixF 0x0d 0x09 0x0e 0x0b 0 k 0 0 = 0 ∧
+     mixF 0x0d 0x09 0x0e 0x0b 0 0 k 0 = k ∧ mixF 0x0d 0x09 0x0e 0x0b 0 0 0 k = 0) ∧
+    (mixF 0x0b 0x0d 0x09 0x0e k 0 0 0 = 0 ∧ mixF 0x0b 0x0d 0x09 0x0e 0 k 0 0 = 0 ∧
+     mixF 0x0b 0x0d 0x09 0x0e 0 0 k 0 = 0 ∧ mixF 0x0b 0x0d 0x09 0x0e 0 0 0 k = k) := by
+  decide +kernel
+
+/-- an additive map that vanishes / is the identity on the basis bytes -/
+theorem additive_zero (f : UInt8 → UInt8) (hf : ∀ x y, f (x ^^^ y) = f x ^^^ f y)
+    (h : ∀ k ∈ [(1 : UInt8), 2, 4, 8, 16, 32, 64, 128], f k = 0) (z : UInt8) : f z = 0 :=
+  additive_ext f (fun _ => 0) hf (by intro _ _; simp)
+    (h 1 (by simp)) (h 2 (by simp)) (h 4 (by simp)) (h 8 (by simp))
+    (h 16 (by simp)) (h 32 (by simp)) (h 64 (by simp)) (h 128 (by simp)) z
+
+theorem additive_id (f : UInt8 → UInt8) (hf : ∀ x y, f (x ^^^ y) = f x ^^^ f y)
+    (h : ∀ k ∈ [(1 : UInt8), 2, 4, 8, 16, 32, 64, 128], f k = k) (z : UInt8) : f z = z :=
+  additive_ext f (fun x => x) hf (by intro _ _; rfl)
+    (h 1 (by simp)) (h 2 (by simp)) (h 4 (by simp)) (h 8 (by simp))
+    (h 16 (by simp)) (h 32 (by simp)) (h 64 (by simp)) (h 128 (by simp)) z
+
+theorem mixF_add1 (e0 e1 e2 e3 x y : UInt8) :
+    mixF e0 e1 e2 e3 (x ^^^ y) 0 0 0 = mixF e0 e1 e2 e3 x 0 0 0 ^^^ mixF e0 e1 e2 e3 y 0 0 0 := by
+  simpa using mixF_add e0 e1 e2 e3 x 0 0 0 y 0 0 0
+theorem mixF_add2 (e0 e1 e2 e3 x y : UInt8) :
+    mixF e0 e1 e2 e3 0 (x ^^^ y) 0 0 = mixF e0 e1 e2 e3 0 x 0 0 ^^^ mixF e0 e1 e2 e3 0 y 0 0 := by
+  simpa using mixF_add e0 e1 e2 e3 0 x 0 0 0 y 0 0
+theorem mixF_add3 (e0 e1 e2 e3 x y : UInt8) :
+    mixF e0 e1 e2 e3 0 0 (x ^^^ y) 0 = mixF e0 e1 e2 e3 0 0 x 0 ^^^ mixF e0 e1 e2 e3 0 0 y 0 := by
+  simpa using mixF_add e0 e1 e2 e3 0 0 x 0 0 0 y 0
+theorem mixF_add4 (e0 e1 e2 e3 x y : UInt8) :
+    mixF e0 e1 e2 e3 0 0 0 (x ^^^ y) = mixF e0 e1 e2 e3 0 0 0 x ^^^ mixF e0 e1 e2 e3 0 0 0 y := by
+  simpa using mixF_add e0 e1 e2 e3 0 0 0 x 0 0 0 y
+
+theorem mixF_row0 (a b c d : UInt8) : mixF 0x0e 0x0b 0x0d 0x09 a b c d = a := by
+  rw [mixF_split,
+    additive_id (fun x => mixF 0x0e 0x0b 0x0d 0x09 x 0 0 0) (mixF_add1 _ _ _ _) (fun k hk => (mixF_basis k hk).1.1),
+    additive_zero (fun x => mixF 0x0e 0x0b 0x0d 0x09 0 x 0 0) (mixF_add2 _ _ _ _) (fun k hk => (mixF_basis k hk).1.2.1),
+    additive_zero (fun x => mixF 0x0e 0x0b 0x0d 0x09 0 0 x 0) (mixF_add3 _ _ _ _) (fun k hk => (mixF_basis k hk).1.2.2.1),
+    additive_zero (fun x => mixF 0x0e 0x0b 0x0d 0x09 0 0 0 x) (mixF_add4 _ _ _ _) (fun k hk => (mixF_basis k hk).1.2.2.2)]
+  simp
+
+theorem mixF_row1 (a b c d : UInt8) : mixF 0x09 0x0e 0x0b 0x0d a b c d = b := by
+  rw [mixF_split,
+    additive_zero (fun x => mixF 0x09 0x0e 0x0b 0x0d x 0 0 0) (mixF_add1 _ _ _ _) (fun k hk => (mixF_basis k hk).2.1.1),
+    additive_id (fun x => mixF 0x09 0x0e 0x0b 0x0d 0 x 0 0) (mixF_add2 _ _ _ _) (fun k hk => (mixF_basis k hk).2.1.2.1),
+    additive_zero (fun x => mixF 0x09 0x0e 0x0b 0x0d 0 0 x 0) (mixF_add3 _ _ _ _) (fun k hk => (mixF_basis k hk).2.1.2.2.1),
+    additive_zero (fun x => mixF 0x09 0x0e 0x0b 0x0d 0 0 0 x) (mixF_add4 _ _ _ _) (fun k hk => (mixF_basis k hk).2.1.2.2.2)]
+  simp
+
+theorem mixF_row2 (a b c d : UInt8) : mixF 0x0d 0x09 0x0e 0x0b a b c d = c := by
+  rw [mixF_split,
+    additive_zero (fun x => mixF 0x0d 0x09 0x0e 0x0b x 0 0 0) (mixF_add1 _ _ _ _) (fun k hk => (mixF_basis k hk).2.2.1.1),
+    additive_zero (fun x => mixF 0x0d 0x09 0x0e 0x0b 0 x 0 0) (mixF_add2 _ _ _ _) (fun k hk => (mixF_basis k hk).2.2.1.2.1),
+    additive_id (fun x => mixF 0x0d 0x09 0x0e 0x0b 0 0 x 0) (mixF_add3 _ _ _ _) (fun k hk => (mixF_basis k hk).2.2.1.2.2.1),
+    additive_zero (fun x => mixF 0x0d 0x09 0x0e 0x0b 0 0 0 x) (mixF_add4 _ _ _ _) (fun k hk => (mixF_basis k hk).2.2.1.2.2.2)]
+  simp
+
+theorem mixF_row3 (a b c d : UInt8) : mixF 0x0b 0x0d 0x09 0x0e a b c d = d := by
+  rw [mixF_split,
+    additive_zero (fun x => mixF 0x0b 0x0d 0x09 0x0e x 0 0 0) (mixF_add1 _ _ _ _) (fun k hk => (mixF_basis k hk).2.2.2.1),
+    additive_zero (fun x => mixF 0x0b 0x0d 0x09 0x0e 0 x 0 0) (mixF_add2 _ _ _ _) (fun k hk => (mixF_basis k hk).2.2.2.2.1),
+    additive_zero (fun x => mixF 0x0b 0x0d 0x09 0x0e 0 0 x 0) (mixF_add3 _ _ _ _) (fun k hk => (mixF_basis k hk).2.2.2.2.2.1),
+    additive_id (fun x => mixF 0x0b 0x0d 0x09 0x0e 0 0 0 x) (mixF_add4 _ _ _ _) (fun k hk => (mixF_basis k hk).2.2.2.2.2.2)]
+  simp
+
+theorem invMixColumn_mixColumn (a b c d : UInt8) :
+    mixColumn [0x0e, 0x0b, 0x0d, 0x09] (mixColumn [2, 3, 1, 1] [a, b, c, d]) = [a, b, c, d] := by
+  rw [mixColumn_four, mixColumn_four]
+  have h0 := mixF_row0 a b c d
+  have h1 := mixF_row1 a b c d
+  have h2 := mixF_row2 a b c d
+  have h3 := mixF_row3 a b c d
+  unfold mixF at h0 h1 h2 h3
+  rw [h0, h1, h2, h3]
+
+theorem mixColumns_sixteen (m0 m1 m2 m3 a0 a1 a2 a3 a4 a5 a6 a7 a8 a9 a10 a11 a12 a13 a14 a15 : UInt8) :
+    (List.range 4).flatMap (fun c => mixColumn [m0, m1, m2, m3]
+      (([a0, a1, a2, a3, a4, a5, a6, a7, a8, a9, a10, a11, a12, a13, a14, a15].drop (4 * c)).take 4)) =
+    mixColumn [m0, m1, m2, m3] [a0, a1, a2, a3] ++ mixColumn [m0, m1, m2, m3] [a4, a5, a6, a7] ++
+    mixColumn [m0, m1, m2, m3] [a8, a9, a10, a11] ++ mixColumn [m0, m1, m2, m3] [a12, a13, a14, a15] := by
+  simp [range4]
+
+theorem invMixColumns_mixColumns (s : Bytes) (h : s.length = 16) : invMixColumns (mixColumns s) = s := by
+  obtain ⟨a0, a1, a2, a3, a4, a5, a6, a7, a8, a9, a10, a11, a12, a13, a14, a15, rfl⟩ := exists_sixteen s h
+  unfold mixColumns
+  rw [mixColumns_sixteen]
+  simp only [mixColumn_four, List.cons_append, List.nil_append]
+  unfold invMixColumns
+  rw [mixColumns_sixteen]
+  simp only [← mixColumn_four, invMixColumn_mixColumn, List.cons_append, List.nil_append]
+
+
+/-! ## Cipher / InvCipher for an arbitrary list of 16-byte round keys -/
+
+theorem getD_length16 (rk : List Bytes) (hk : ∀ k ∈ rk, k.length = 16) (i : Nat) (hi : i < rk.length) :
+    (rk.getD i []).length = 16 := by
+  apply hk
+  rw [List.getD_eq_getElem?_getD, List.getElem?_eq_getElem hi, Option.getD_some]
+  exact List.getElem_mem hi
+
+/-- the state after `i` full encryption rounds -/
+def encS (rk : List Bytes) (s0 : Bytes) (i : Nat) : Bytes :=
+  (List.range i).foldl (fun s r =>
+    addRoundKey (mixColumns (shiftRows (subBytes s))) (rk.getD (r + 1) [])) s0
+
+theorem encS_zero (rk : List Bytes) (s0 : Bytes) : encS rk s0 0 = s0 := rfl
+
+theorem encS_succ (rk : List Bytes) (s0 : Bytes) (i : Nat) :
+    encS rk s0 (i + 1) =
+      addRoundKey (mixColumns (shiftRows (subBytes (encS rk s0 i)))) (rk.getD (i + 1) []) := by
+  simp [encS, List.range_succ, List.foldl_append]
+
+theorem encS_length (rk : List Bytes) (hk : ∀ k ∈ rk, k.length = 16) (s0 : Bytes)
+    (hs0 : s0.length = 16) (i : Nat) (hi : i < rk.length) : (encS rk s0 i).length = 16 := by
+  induction i with
+  | zero => exact hs0
+  | succ i _ =>
+    rw [encS_succ]
+    exact addRoundKey_length16 _ _ (mixColumns_length _) (getD_length16 rk hk _ hi)
+
+theorem invSub_invShift_shift_sub (s : Bytes) (h : s.length = 16) :
+    invSubBytes (invShiftRows (shiftRows (subBytes s))) = s := by
+  rw [invShiftRows_shiftRows _ (by rw [subBytes_length]; exact h), invSubBytes_subBytes]
+
+/-- one decryption round undoes one encryption round (in the InvCipher grouping) -/
+theorem round_inv (y k : Bytes) (hk : k.length = 16) :
+    invMixColumns (addRoundKey (invSubBytes (invShiftRows (shiftRows (subBytes
+      (addRoundKey (mixColumns (shiftRows (subBytes y))) k))))) k) = shiftRows (subBytes y) := by
+  rw [invSub_invShift_shift_sub _ (addRoundKey_length16 _ _ (mixColumns_length _) hk),
+    addRoundKey_cancel _ _ (by rw [mixColumns_length, hk]; exact Nat.le_refl _),
+    invMixColumns_mixColumns _ (shiftRows_length _)]
+
+theorem dec_fold (rk : List Bytes) (hk : ∀ k ∈ rk, k.length = 16) (nr : Nat) (hnr : nr < rk.length)
+    (s0 : Bytes) (j : Nat) (hj : j ≤ nr - 1) :
+    (List.range j).foldl (fun s r =>
+      invMixColumns (addRoundKey (invSubBytes (invShiftRows s)) (rk.getD (nr - 1 - r) [])))
+      (shiftRows (subBytes (encS rk s0 (nr - 1)))) = shiftRows (subBytes (encS rk s0 (nr - 1 - j))) := by
+  induction j with
+  | zero => rfl
+  | succ j ih =>
+    rw [List.range_succ, List.foldl_append, ih (by omega)]
+    simp only [List.foldl_cons, List.foldl_nil]
+    have e : nr - 1 - j = (nr - 1 - (j + 1)) + 1 := by omega
+    rw [e, encS_succ]
+    exact round_inv _ _ (getD_length16 rk hk _ (by omega))
+
+theorem invCipher_cipher_rk (rk : List Bytes) (hne : rk ≠ []) (hk : ∀ k ∈ rk, k.length = 16)
+    (b : Bytes) (hb : b.length = 16) : invCipher rk (cipher rk b) = b := by
+  have hpos : 0 < rk.length := List.length_pos_iff.mpr hne
+  have hnr : rk.length - 1 < rk.length := by omega
+  have h0 : (rk.getD 0 []).length = 16 := getD_length16 rk hk 0 hpos
+  have hs0 : (addRoundKey b (rk.getD 0 [])).length = 16 := addRoundKey_length16 _ _ hb h0
+  have hfold := dec_fold rk hk (rk.length - 1) hnr (addRoundKey b (rk.getD 0 [])) (rk.length - 1 - 1)
+    (Nat.le_refl _)
+  rw [Nat.sub_self, encS_zero] at hfold
+  unfold encS at hfold
+  simp only [cipher, invCipher]
+  rw [addRoundKey_cancel _ _ (by rw [shiftRows_length, getD_length16 rk hk _ hnr]; exact Nat.le_refl _),
+    hfold, invSub_invShift_shift_sub _ hs0, addRoundKey_cancel _ _ (by rw [hb, h0]; exact Nat.le_refl _)]
+
+theorem cipher_length_rk (rk : List Bytes) (hne : rk ≠ []) (hk : ∀ k ∈ rk, k.length = 16)
+    (b : Bytes) : (cipher rk b).length = 16 := by
+  have hpos : 0 < rk.length := List.length_pos_iff.mpr hne
+  simp only [cipher]
+  exact addRoundKey_length16 _ _ (shiftRows_length _) (getD_length16 rk hk _ (by omega))
+
+theorem invCipher_length_rk (rk : List Bytes) (hne : rk ≠ []) (hk : ∀ k ∈ rk, k.length = 16)
+    (b : Bytes) : (invCipher rk b).length = 16 := by
+  have hpos : 0 < rk.length := List.length_pos_iff.mpr hne
+  simp only [invCipher]
+  exact addRoundKey_length16 _ _ (by rw [invSubBytes_length, invShiftRows_length])
+    (getD_length16 rk hk _ hpos)
+
+/-! ## KeyExpansion produces Nr + 1 round keys of 16 bytes -/
+
+theorem foldl_range_inv {α : Type} (P : Nat → α → Prop) (f : α → Nat → α) (a0 : α) (h0 : P 0 a0)
+    (hs : ∀ j a, P j a → P (j + 1) (f a j)) (n : Nat) : P n ((List.range n).foldl f a0) := by
+  induction n with
+  | zero => exact h0
+  | succ n ih =>
+    rw [List.range_succ, List.foldl_append]
+    exact hs n _ ih
+
+theorem keyExpansion_length_of_ge (key : Bytes) (h4 : 4 ≤ key.length) :
+    keyExpansion key ≠ [] ∧ ∀ k ∈ keyExpansion key, k.length = 16 := by
+  have hnk : 1 ≤ key.length / 4 := by omega
+  unfold keyExpansion
+  simp only []
+  generalize hw : List.foldl _ _ _ = w
+  have hinv : w.size = key.length / 4 + (4 * (key.length / 4 + 6 + 1) - key.length / 4) ∧
+      ∀ i, i < w.size → (w.getD i []).length = 4 := by
+    rw [← hw]
+    apply foldl_range_inv (fun j (w : Array Bytes) => w.size = key.length / 4 + j ∧
+      ∀ i, i < w.size → (w.getD i []).length = 4)
+    · refine ⟨by simp, ?_⟩
+      intro i hi
+      simp only [Array.size_map, Array.size_range] at hi
+      simp [hi]
+      omega
+    · intro j w ⟨hsz, hlen⟩
+      have ht : (w.getD (j + key.length / 4 - 1) []).length = 4 := hlen _ (by omega)
+      have hu : (w.getD (j + key.length / 4 - key.length / 4) []).length = 4 := hlen _ (by omega)
+      generalize w.getD (j + key.length / 4 - 1) [] = t at ht
+      generalize w.getD (j + key.length / 4 - key.length / 4) [] = u at hu
+      refine ⟨by simp [hsz]; omega, ?_⟩
+      intro i hi
+      simp only [Array.size_push] at hi
+      simp only [Array.getD_eq_getD_getElem?, Array.getElem?_push]
+      split
+      · simp only [Option.getD_some, List.length_zipWith, hu]
+        split
+        · simp [ht]
+        · split
+          · simp [ht]
+          · simp [ht]
+      · have := hlen i (by omega)
+        simpa using this
+  obtain ⟨hsz, hlen⟩ := hinv
+  constructor
+  · intro h
+    have := congrArg List.length h
+    simp at this
+  · intro k hk
+    simp only [List.mem_map, List.mem_range] at hk
+    obtain ⟨r, hr, rfl⟩ := hk
+    simp only [range4, List.flatMap_cons, List.flatMap_nil, List.length_append, List.length_nil]
+    rw [hlen _ (by omega), hlen _ (by omega), hlen _ (by omega), hlen _ (by omega)]
+
+theorem keyExpansion_length (key : Bytes) (h : key.length = 16 ∨ key.length = 24 ∨ key.length = 32) :
+    keyExpansion key ≠ [] ∧ ∀ k ∈ keyExpansion key, k.length = 16 :=
+  keyExpansion_length_of_ge key (by omega)
+
+/-! ## main theorems -/
+
+theorem invCipher_cipher (key b : Bytes) (hk : key.length = 16 ∨ key.length = 24 ∨ key.length = 32)
+    (hb : b.length = 16) : invCipher (keyExpansion key) (cipher (keyExpansion key) b) = b :=
+  invCipher_cipher_rk _ (keyExpansion_length key hk).1 (keyExpansion_length key hk).2 b hb
+
+theorem cipher_length (key b : Bytes) (hk : key.length = 16 ∨ key.length = 24 ∨ key.length = 32)
+    (_hb : b.length = 16) : (cipher (keyExpansion key) b).length = 16 :=
+  cipher_length_rk _ (keyExpansion_length key hk).1 (keyExpansion_length key hk).2 b
+
+theorem invCipher_length (key b : Bytes) (hk : key.length = 16 ∨ key.length = 24 ∨ key.length = 32)
+    (_hb : b.length = 16) : (invCipher (keyExpansion key) b).length = 16 :=
+  invCipher_length_rk _ (keyExpansion_length key hk).1 (keyExpansion_length key hk).2 b
+
 end Relic.Lemmas.Aes
+
